@@ -251,6 +251,11 @@ func s3Aliasing() []BashCase {
 		"stored-by-callee":    {VarDecl{Names: []string{"keep"}, Type: TSliceInt}, fn("stash", []Param{{"p", TSliceInt}}, nil, set("keep", vr("p"))), def("a", I(4, 5)), callS("stash", vr("a")), SliceSet{"keep", il(0), il(6)}, pr(Index{"a", il(0)}, Len{vr("keep")}), SliceSet{"a", il(2), il(8)}, pr(Index{"keep", il(2)})},
 		"fresh-per-iteration": {VarDecl{Names: []string{"first"}, Type: TSliceInt}, forUp("i", 3, def("t", I(0)), SliceSet{"t", il(0), vr("i")}, ifs(cmp("==", vr("i"), il(0)), set("first", vr("t"))), pr(Index{"t", il(0)}, Index{"first", il(0)}, Len{vr("t")})), pr(Index{"first", il(0)})},
 		"fresh-per-call":      {fn("mk", []Param{{"v", TInt}}, []Type{TSliceInt}, def("s", I(0, 0)), SliceSet{"s", il(0), vr("v")}, ret(vr("s"))), def("a", call("mk", il(1))), def("b", call("mk", il(2))), pr(Index{"a", il(0)}, Index{"b", il(0)}), SliceSet{"a", il(1), il(9)}, pr(Index{"b", il(1)})},
+		// one declaration, several names, no values: every name is a slice of its own
+		"var-decl-two-names":          {VarDecl{Names: []string{"evens", "odds"}, Type: TSliceInt}, forUp("i", 5, ife(cmp("==", bin("%", vr("i"), il(2)), il(0)), []Stmt{SliceSet{"evens", Len{vr("evens")}, vr("i")}}, []Stmt{SliceSet{"odds", Len{vr("odds")}, vr("i")}})), pr(Len{vr("evens")}, Len{vr("odds")}, Index{"evens", il(2)}, Index{"odds", il(1)})},
+		"var-decl-three-names-strings": {VarDecl{Names: []string{"a", "b", "c"}, Type: TSliceString}, SliceSet{"b", il(0), sl("only b")}, SliceSet{"c", il(1), sl("c1")}, pr(Len{vr("a")}, Len{vr("b")}, Len{vr("c")}, framed(Index{"c", il(0)}), framed(Index{"b", il(0)}))},
+		"var-decl-two-names-in-function": {fn("split", []Param{{"n", TInt}}, []Type{TInt}, VarDecl{Names: []string{"lo", "hi"}, Type: TSliceInt}, forUp("i", 4, ife(cmp("<", vr("i"), vr("n")), []Stmt{SliceSet{"lo", Len{vr("lo")}, vr("i")}}, []Stmt{SliceSet{"hi", Len{vr("hi")}, vr("i")}})), pr(Len{vr("lo")}, Len{vr("hi")}), ret(bin("+", bin("*", Len{vr("lo")}, il(10)), Len{vr("hi")}))), pr(call("split", il(1))), pr(call("split", il(3)))},
+		"var-decl-two-names-bools":    {VarDecl{Names: []string{"p", "q"}, Type: TSliceBool}, SliceSet{"p", il(1), bl(true)}, pr(Len{vr("p")}, Len{vr("q")}, Index{"p", il(0)}, Index{"p", il(1)})},
 		"var-decl-empty":      {VarDecl{Names: []string{"a"}, Type: TSliceString}, VarDecl{Names: []string{"b"}, Type: TSliceString}, SliceSet{"a", il(0), sl("x")}, pr(Len{vr("a")}, Len{vr("b")})},
 		"reassign":            {def("a", I(1)), def("b", I(2, 3)), set("a", vr("b")), SliceSet{"a", il(0), il(7)}, pr(Index{"b", il(0)}, Len{vr("a")}), set("b", I()), pr(Len{vr("b")}, Len{vr("a")})},
 		"bool-and-string":     {def("f", SliceLit{TBool, []Expr{bl(true), bl(false)}}), def("s", SliceLit{TString, []Expr{sl("a b"), sl("")}}), def("g", vr("f")), def("t", vr("s")), SliceSet{"g", il(1), bl(true)}, SliceSet{"t", il(1), sl("c d")}, pr(Index{"f", il(1)}, framed(Index{"s", il(1)}), framed(Index{"s", il(0)}))},
